@@ -226,3 +226,19 @@ Definition diff_gen (C : bool -> list rt -> list rt -> list rt * bool)
   else None.
 Definition diff_tree := diff_gen compare.
 Definition diff_tree_lit := diff_gen compare_lit.
+
+(* ---- executable form of the theorems' domain (DiffProofs.dom) ------------ *)
+Fixpoint nodupb (l : list Z) : bool :=
+  match l with [] => true | x :: r => negb (existsb (Z.eqb x) r) && nodupb r end.
+Definition keys_of (l : list rt) : list Z := map (fun t => i_eqc (rinfo t)) l.
+Fixpoint dom_t (c0 : rt) (ch1 : list rt) {struct c0} : bool :=
+  match c0 with
+  | T _ i0 ch0 =>
+      forallb (fun c1 =>
+        Bool.eqb (Z.eqb (i_eqc i0) (i_eqc (rinfo c1))) (did_eqb (i_did i0) (rdid c1)) &&
+        (if Z.eqb (i_eqc i0) (i_eqc (rinfo c1))
+         then nodupb (keys_of ch0) && nodupb (keys_of (rch c1)) && forallb (fun c => dom_t c (rch c1)) ch0
+         else true)) ch1
+  end.
+Definition dom_b (ch0 ch1 : list rt) : bool :=
+  nodupb (keys_of ch0) && nodupb (keys_of ch1) && forallb (fun c0 => dom_t c0 ch1) ch0.
